@@ -60,6 +60,8 @@ type Conn struct {
 	remote   addr
 	peer     *Conn
 	ioSync   *byte
+	// eofWithData: Read returns the last bytes together with io.EOF
+	eofWithData bool
 }
 
 // Listener is a vnet listener.
@@ -215,6 +217,13 @@ func (timeoutError) Is(err error) bool {
 	return err == os.ErrDeadlineExceeded
 }
 
+// PeerReadsEOFWithData makes the other end of this connection report the end
+// of the stream together with the last bytes it reads (n > 0 and io.EOF from
+// one Read), as the io.Reader contract permits.
+//
+//go:norace
+func (c *Conn) PeerReadsEOFWithData() { c.peer.eofWithData = true }
+
 //go:norace
 func (c *Conn) Read(p []byte) (int, error) {
 	var n int
@@ -234,6 +243,11 @@ func (c *Conn) Read(p []byte) (int, error) {
 			case len(c.in.buf) > 0:
 				n = copy(p, c.in.buf)
 				c.in.buf = c.in.buf[n:]
+				if c.eofWithData && len(c.in.buf) == 0 && c.in.wclosed {
+					// the io.Reader contract allows the last bytes and the end of the stream in
+					// one call (crypto/tls does that when close_notify follows the last record)
+					err = io.EOF
+				}
 			case len(p) == 0:
 			case c.in.wclosed:
 				err = io.EOF
